@@ -19,6 +19,9 @@ pub enum Step {
     TryOldPassword(usize),
     /// change-pass with a wrong old password: must fail and print no key
     ChangePassWrongOld(String),
+    /// extract-pub of the newest string with a near-miss of the current password (appended newline,
+    /// appended space, trimmed, CRLF): a different password, so it must be refused (C15)
+    TryVariantPassword(u8),
     /// PRIVATE-KEY argument with one bit of the 84-byte blob flipped, or another text-level damage
     Damaged(u32, u8),
 }
@@ -35,7 +38,11 @@ pub struct Scn {
 pub struct B4;
 
 fn pw(rng: &mut Rng) -> String {
-    match rng.below(8) {
+    match rng.below(12) {
+        8 => "ends with newline\n".into(),
+        9 => "crlf\r\n".into(),
+        10 => "trailing space ".into(),
+        11 => " \u{3000}".into(),
         0 => String::new(),
         1 => "a".into(),
         2 => "x".repeat(64),
@@ -97,6 +104,7 @@ impl Family for B4 {
                 2 => steps.push(Step::TryOldPassword(rng.usize_below(history.len() - 1))),
                 3 => steps.push(Step::ChangePassWrongOld(format!("{}-wrong", history[history.len() - 1]))),
                 4 => steps.push(Step::Damaged(rng.below(672) as u32, rng.below(4) as u8)),
+                5 => steps.push(Step::TryVariantPassword(rng.below(5) as u8)),
                 _ => {}
             }
         }
@@ -215,6 +223,23 @@ impl Family for B4 {
                         out.violations.push(viol("C16", "no_error_line", format!("step {}", i)));
                     }
                 }
+                Step::TryVariantPassword(kind) => {
+                    let variant = match kind {
+                        0 => format!("{}\n", cur_pw),
+                        1 => format!("{} ", cur_pw),
+                        2 => cur_pw.trim_end().to_string(),
+                        3 => format!("{}\r\n", cur_pw),
+                        _ => cur_pw.trim().to_string(),
+                    };
+                    if variant == cur_pw {
+                        continue;
+                    }
+                    let fin = run_inv(Invocation::new(&["key", "extract-pub", &current, "--env-pass"]).env("KESTREL_PASSWORD", &variant), &mut th, &mut all_output);
+                    out.count("probe.near_miss_password_tried", 1);
+                    if fin.status != Status::Exit(1) || !fin.stdout.is_empty() {
+                        out.violations.push(viol("C15", "cli_other_password_unlocks", format!("step {}: a key locked under {:?} was unlocked by the different password {:?} ({:?})", i, cur_pw, variant, fin.status)));
+                    }
+                }
                 Step::ChangePassWrongOld(wrong) => {
                     if *wrong == cur_pw {
                         continue;
@@ -281,7 +306,7 @@ impl Family for B4 {
         out.count("probe.password_changes", (strings.len() - 1) as u64);
         out.trace_hash = th;
         out.steps = inv_n;
-        out.signature = format!("b4|{}|{}|{}", s.start_generated, s.steps.iter().map(|t| match t { Step::ChangePass(p) => if p.is_empty() { 'e' } else if !p.is_ascii() { 'u' } else if p.len() >= 64 { 'L' } else { 'c' }, Step::ExtractPub => 'x', Step::TryOldPassword(_) => 'o', Step::ChangePassWrongOld(_) => 'w', Step::Damaged(..) => 'd' }).collect::<String>(), s.use_at_end);
+        out.signature = format!("b4|{}|{}|{}", s.start_generated, s.steps.iter().map(|t| match t { Step::ChangePass(p) => if p.is_empty() { 'e' } else if !p.is_ascii() { 'u' } else if p.len() >= 64 { 'L' } else { 'c' }, Step::ExtractPub => 'x', Step::TryOldPassword(_) => 'o', Step::TryVariantPassword(_) => 'v', Step::ChangePassWrongOld(_) => 'w', Step::Damaged(..) => 'd' }).collect::<String>(), s.use_at_end);
         out.nontrivial = s.steps.len() >= 2;
         out
     }
